@@ -200,6 +200,30 @@ struct Checker {
                                 [&](const nix::MultiTag &a) { return g.hasMultiTag(a); }, [&] { return g.multiTags(); }, true,
                                 [](const nix::MultiTag &a) { return a.name(); });
             sourcesOfEntity(g, w);
+            // entities of the block that are NOT members are not found in the group by name, by id or by handle
+            auto nonMember = [&](const std::string &what, const std::string &nm, const std::string &id, bool hasName, bool hasId, bool hasHandle, bool got) {
+                VCHECK(!hasName, after << ": " << w << ": has" << what << "(" << show(nm) << ") is true for an entity that is not a member");
+                VCHECK(!hasId, after << ": " << w << ": has" << what << "(" << id << ") is true for an entity that is not a member");
+                VCHECK(!hasHandle, after << ": " << w << ": has" << what << "(handle) is true for an entity that is not a member");
+                VCHECK(!got, after << ": " << w << ": get" << what << "(" << show(nm) << ") returns something for an entity that is not a member");
+            };
+            std::set<std::string> ma, mt_, mm, mf;
+            for (auto &x : g.dataArrays()) ma.insert(x.id());
+            for (auto &x : g.tags()) mt_.insert(x.id());
+            for (auto &x : g.multiTags()) mm.insert(x.id());
+            for (auto &x : g.dataFrames()) mf.insert(x.id());
+            // a name that another member carries is of course found: only names no member has are asked for
+            auto nameTaken = [&](const std::string &nm, const char kind) {
+                if (kind == 'a') { for (auto &x : g.dataArrays()) if (x.name() == nm) return true; }
+                if (kind == 't') { for (auto &x : g.tags()) if (x.name() == nm) return true; }
+                if (kind == 'm') { for (auto &x : g.multiTags()) if (x.name() == nm) return true; }
+                if (kind == 'f') { for (auto &x : g.dataFrames()) if (x.name() == nm) return true; }
+                return false;
+            };
+            for (auto &x : b.dataArrays()) if (!ma.count(x.id()) && !nameTaken(x.name(), 'a')) nonMember("DataArray", x.name(), x.id(), g.hasDataArray(x.name()), g.hasDataArray(x.id()), g.hasDataArray(x), !!g.getDataArray(x.name()));
+            for (auto &x : b.tags()) if (!mt_.count(x.id()) && !nameTaken(x.name(), 't')) nonMember("Tag", x.name(), x.id(), g.hasTag(x.name()), g.hasTag(x.id()), g.hasTag(x), !!g.getTag(x.name()));
+            for (auto &x : b.multiTags()) if (!mm.count(x.id()) && !nameTaken(x.name(), 'm')) nonMember("MultiTag", x.name(), x.id(), g.hasMultiTag(x.name()), g.hasMultiTag(x.id()), g.hasMultiTag(x), !!g.getMultiTag(x.name()));
+            for (auto &x : b.dataFrames()) if (!mf.count(x.id()) && !nameTaken(x.name(), 'f')) nonMember("DataFrame", x.name(), x.id(), g.hasDataFrame(x.name()), g.hasDataFrame(x.id()), g.hasDataFrame(x), !!g.getDataFrame(x.name()));
         }
     }
 
@@ -267,7 +291,11 @@ static void body(Tape &t, Ctx &ctx) {
         ctx.count("members_checked", ck.members);
     }
     // final close + reopen (read-only): same order, same agreement
+    auto nfiles = [] { return (long)H5Fget_obj_count(static_cast<hid_t>(H5F_OBJ_ALL), H5F_OBJ_FILE); };
+    bool dg = getenv("VERIF_LEAKDIAG") != nullptr;
+    if (dg) fprintf(stderr, "DG before close: files=%ld\n", nfiles());
     p.f.close();
+    if (dg) fprintf(stderr, "DG after close: files=%ld\n", nfiles());
     {
         nix::File ro = nix::File::open(pa, nix::FileMode::ReadOnly);
         Checker ck{ctx, &prev, "after the final reopen"};
@@ -278,6 +306,7 @@ static void body(Tape &t, Ctx &ctx) {
         VCHECK(now.by_key == prev.by_key, "after the final reopen: the members or their order differ from before close");
         ro.close();
     }
+    if (dg) fprintf(stderr, "DG after ro close: files=%ld\n", nfiles());
     p.finish();
     if (dupRefused) ctx.count("duplicate_name_refused", dupRefused);
     ctx.nontrivial = creates >= 3 && removals >= 1 && special;
